@@ -2,7 +2,7 @@
 from hqrules.core import FailClosed, callee_of, callee_decl, op_local, op_place, place_fields, norm, op_const
 from hqrules.templates import (effect_blocks, must_pass, state_writes, variants_at, call_sites, construct_sites, Effect,
                                loop_headers_containing, owner_fn, scrutinees, guard_edges, dominated_by_edges,
-                               local_field_sources, binops, operand_fields, field_write_sites, field_read_sites)
+                               local_field_sources, binops, operand_fields, field_write_sites, field_read_sites, bool_uses)
 from .common import *
 from . import C16 as _c16
 
@@ -119,6 +119,47 @@ def run(ctx):
     ctx.require(pushes_, 'R04.6: try_take_fraction hands out no index')
     okf = all(x not in ttf.reach_from([0], avoid=subs_) or must_pass(ttf, [x], subs_)[0] for x in pushes_) and bool(subs_)
     ctx.ob('R04.6', 'try_take_fraction|taken fraction subtracted', okf, 'the fraction pushed into the allocation is subtracted from the free-fraction entry of that index on the same path', ttf.loc(pushes_[0]))
+    # ---- R04.7 order convention of Allocation.indices between the pool (producer) and the concise summary (consumer)
+    ctx.rule('R04.7', 'index-order convention: ResourcePool (Indices) pushes whole indices before the fractional one; ConciseResourceState::add/remove loops that stop at the first whole index scan from the end; add and remove agree')
+    CONC = W + 'resources::concise::ConciseResourceState::'
+    shapes = {}
+    for fn in ('add', 'remove'):
+        cb_ = prog.body(CONC + fn)
+        loops = []
+        for bi, t, c in cb_.calls():
+            if bi not in cb_.reachable() or not (callee_decl(t) or c or '').endswith('Iterator::next') or 'ForLoop' not in (t.get('x') or ''):
+                continue
+            hs = loop_headers_containing(cb_, bi)
+            if not hs:
+                continue
+            h = hs[0]
+            rev = 'rev::Rev' in (c or '') or 'Rev<' in cb_.locals[op_local(t['args'][0])][0]
+            # an early exit on `fractions == 0`
+            brk = False
+            for b2, s2, op, a, c2 in binops(cb_):
+                if op != 'Eq' or h not in cb_.reach_from([b2]) or b2 not in cb_.reach_from([bi]):
+                    continue
+                if 'fractions' not in (operand_fields(cb_, a) | operand_fields(cb_, c2)):
+                    continue
+                if not any(x[0] == 'k' and x[1].startswith('const 0') or (x[0] == 'k' and x[1].startswith('0_')) for x in (a, c2)):
+                    continue
+                for sb, ts_, fs_ in bool_uses(cb_, s2['p'][0]):
+                    if h not in cb_.reach_from([ts_], avoid=[x for x in cb_.returns()]):
+                        brk = True
+            loops.append((bi, rev, brk))
+        shapes[fn] = sorted((rev, brk) for bi, rev, brk in loops)
+        ctx.floor('R04.7', len(loops), 1, f'for-loops over the allocation indices in ConciseResourceState::{fn}')
+        for bi, rev, brk in loops:
+            if brk:
+                ctx.ob('R04.7', f'{fn}|early-exit loop scans from the end', rev, 'a loop that stops at the first whole index (fractions == 0) must iterate in reverse: the pool stores whole indices first and the fractional index last', cb_.loc(bi))
+    ctx.ob('R04.7', 'add/remove|same loop shapes', shapes['add'] == shapes['remove'], f'add and remove walk the indices the same way (add {shapes["add"]}, remove {shapes["remove"]}): what remove subtracts add gives back', prog.body(CONC + 'add').loc())
+    cr = prog.body(POOLP + 'claim_resources')
+    ti_ = cr.call_blocks(POOLP + 'take_indices')
+    tf_ = cr.call_blocks(POOLP + 'take_fraction_index_or_split')
+    ctx.require(ti_ and tf_, 'R04.7: take_indices / take_fraction_index_or_split calls in claim_resources')
+    ctx.ob('R04.7', 'claim_resources|whole indices first', all(y in cr.reach_from([x]) and x not in cr.reach_after(y) for x in ti_ for y in tf_),
+           'in the single-group pool the whole indices are pushed before the fractional index', cr.loc(ti_[0]))
+
     # ---- R04.4
     lt = ts.call_blocks(REACT + 'launch_task')
     ctx.require(lt, 'R04.4: launch_task call')
